@@ -106,6 +106,12 @@ def gen(rng, n):
             if rng.random() < 0.6:
                 nodes += [['f', ht + '/info/frn_latin1.trashinfo', b'[Trash Info]\nPath=/home/u/caf\xe9\nDeletionDate=2001-01-01T00:00:00\n'],
                           ['f', ht + '/files/frn_latin1', 'foreign']]
+        if not tdopt and rng.random() < 0.25:
+            # earlier entries whose original location exists again (the file was re-created): they are offered like any other, under
+            # their own numbers - the number printed next to OUR entry is the number that restores it
+            for nm, loc in (('earlier1', root + '/other1'), ('earlier2', lay.home + '/other2'), ('earlier0', parent + '/sibling')):
+                if rng.random() < 0.7:
+                    nodes += scen.entry(lay.home_trash, nm, loc, rng.choice(['2001-01-01T00:00:00', '2030-01-01T00:00:00']), 'f', data='an older version')
         sort = rng.choice(['date', 'path', 'none', None])
         scope_kind = rng.choice(['path', 'parent-arg', 'cwd-parent', 'ancestor', 'root'])
         steps = [{'cmd': 'put', 'argv': tdopt + ['--', full + ('/' if sibcase else '')], 'now': [2024, 5, 6, 7, 8, 9, 0], 'env': putenv}]
